@@ -1,12 +1,12 @@
 (** C01 — verdict functions for harness/cmd/c01: schedules on the ID-multiplexed connection (Judge.Tdc)
     and on the non-pipelined transport (Judge.Reuse). *)
 From Verif Require Import Base.Prelude.
-From Verif Require Judge.Tdc Judge.Reuse.
-Export Judge.Tdc Judge.Reuse.
-Inductive case := KTdc (c : Judge.Tdc.case) | KReuse (c : Judge.Reuse.case).
+From Verif Require Judge.Tdc Judge.Reuse Judge.IdZero.
+Export Judge.Tdc Judge.Reuse Judge.IdZero.
+Inductive case := KTdc (c : Judge.Tdc.case) | KReuse (c : Judge.Reuse.case) | KId (c : Judge.IdZero.icase).
 Definition agree (c : case) : bool :=
-  match c with KTdc x => Judge.Tdc.agree x | KReuse x => Judge.Reuse.agree x end.
+  match c with KTdc x => Judge.Tdc.agree x | KReuse x => Judge.Reuse.agree x | KId x => Judge.IdZero.i_agree x end.
 Definition spec (c : case) : bool :=
-  match c with KTdc x => Judge.Tdc.spec_c01 x | KReuse x => Judge.Reuse.spec_c01 x end.
+  match c with KTdc x => Judge.Tdc.spec_c01 x | KReuse x => Judge.Reuse.spec_c01 x | KId x => Judge.IdZero.i_spec x end.
 Definition nontrivial (c : case) : bool :=
-  match c with KTdc x => Judge.Tdc.nontrivial_c01 x | KReuse x => Judge.Reuse.nontrivial x end.
+  match c with KTdc x => Judge.Tdc.nontrivial_c01 x | KReuse x => Judge.Reuse.nontrivial x | KId x => Judge.IdZero.i_nontrivial x end.
